@@ -458,3 +458,15 @@ package flushable
 //@ func (*SyncedPool).NotFlushedSizeEst
 //@   requires p != nil && forall(n string, has(p.wrappers, n) ==> p.wrappers[n].Flushable != nil && p.wrappers[n].Flushable.LazyFlushable != nil && p.wrappers[n].Flushable.LazyFlushable.Flushable != nil && p.wrappers[n].Flushable.LazyFlushable.Flushable.sizeEstimation != nil)
 //@   loop 1 invariant true
+//@
+//@ // Flush (C28): the exported operation is one critical section of the pool's mutex around flush, whose contract carries
+//@ // over; enqueueDropDb (the drop callback of a wrapped database) reaches the drop queue under its own mutex.
+//@ func (*SyncedPool).Flush
+//@   requires p != nil && p.queuedDrops != nil && len(id) <= 4611686018427387904 && forall(n string, has(p.wrappers, n) ==> wOK(p.wrappers[n].Flushable))
+//@   modifies p.queuedDrops, p.wrappers[*], gRealCloseN, gDroperDropN, gDroperDropRecv, gInitN, gInitRecv, gInitR0, gInitR1, gLFlushN, gLFlushRecv, gLFlushR0, gDMat[*], gCMat[*], gFlAt[*], gKeyValueWriterPutN, gKeyValueWriterPutRecv, gKeyValueWriterPutA0, gKeyValueWriterPutA1, gKeyValueWriterPutR0, gWrOpN, gWrOpKind[*], gWrOpRecv[*], gWrOpKey[*], gWrOpVal[*], gWrOpErr[*], gProdN, gProdR0, gProdR1, all(Flushable).underlying, all(flushableReader).underlying, all(LazyFlushable).producer, tHas[*], tVal[*], tN[*], tKey[*], tNode[*], allcells(int), gBatcherNewBatchN, gBatcherNewBatchRecv, gBatcherNewBatchR0, gBatchValueSizeN, gBatchValueSizeRecv, gBatchValueSizeR0, gBatchWriteN, gBatchWriteRecv, gBatchWriteR0, gBatchResetN, gBatchResetRecv, gKeyValueWriterDeleteN, gKeyValueWriterDeleteRecv, gKeyValueWriterDeleteA0, gKeyValueWriterDeleteR0
+//@   ensures  [done] result == nil ==> forall(n string, has(p.wrappers, n) ==> gDMat[p.wrappers[n].Flushable] >= old(gWrOpN) && gFlAt[p.wrappers[n].Flushable] >= old(gLFlushN) && gCMat[p.wrappers[n].Flushable] > gDMat[p.wrappers[n].Flushable])
+//@   ensures  [dropped] forall(n string, has(p.wrappers, n) ==> old(has(p.wrappers, n)) && p.wrappers[n] == old(p.wrappers[n]))
+//@ func (*SyncedPool).enqueueDropDb
+//@   requires p != nil && p.queuedDrops != nil
+//@   modifies p.queuedDrops[name]
+//@   ensures  has(p.queuedDrops, name)
